@@ -1,35 +1,46 @@
 """C06 - On-disk array stores keep exactly what was written, across reopen and crash.
 
 Functions under contract (real bodies read from elfi/store.py at run time, executed over proxies):
-  NpyArray: size, closed, initialized, __len__, append, truncate, clear, flush, close, __getstate__,
-            _prepare_header_data, _write_header_data, _init_from_file_header, init_from_array
-  ArrayStore: _to_slice, __len__, __contains__, __getitem__, __setitem__, __delitem__, clear
+  NpyArray: size, closed, initialized, __len__, memmap, __getitem__, __setitem__, append, truncate, clear, flush, close, __getstate__,
+            _prepare_header_data, _write_header_data (2 cases), _init_from_file_header, init_from_array
+  ArrayStore: _to_slice, __len__, __contains__, __getitem__, __setitem__, __delitem__, clear (2 cases)
   NpyStore:   __setitem__, __delitem__
 
-Model of the LIBRARY objects only (file object, io.BytesIO, numpy.lib.format, ndarray data):
+Model of the LIBRARY objects only (file object, io.BytesIO, numpy.lib.format, np.memmap, ndarray data):
   ghost disk   = (hdr_rows, hdr_tail, hdr_dtype, prefix_H, data_rows, content : row -> value)
-  ghost Hist   = logical contents (n, content) seen since the last completed flush
-  fs (FileSpec) updates the ghost disk in program order and emits, after EVERY file operation, the two
-  crash obligations of the property's last sentence (kinds `crash[...]`).
-View of an NpyArray: rows = disk content on [0, shape[0]);  npy_ok is the representation invariant
-(precondition and postcondition of every public method).
+  ghost Hist   = logical contents (n, content) seen since the last completed flush, plus the content the operation in progress leads to
+  fs (FileSpec) updates the ghost disk in program order and emits, after EVERY file operation (seek/write/truncate/flush/close, creation of
+  a np.memmap, store through the memmap), the two crash obligations of the property's last sentence (kinds `crash[...]`):
+     the file still loads (0 <= header rows <= data rows, header describes the row shape/dtype, length field = H)
+     the content the file shows (its first hdr_rows rows) is a logical content of Hist
+  ghost `buffered`: bytes written through fs may sit in its user-space buffer until the next seek/truncate/flush/close; a store through
+  the memmap bypasses that buffer, so it carries the call-pre "nothing buffered".
+View of an NpyArray: rows = disk content on [0, shape[0]);  npy_ok is the representation invariant (precondition and postcondition of
+every public method; the two header helpers, which run in the middle of an operation, have the weaker write_header_pre).
+Callees under contract are replaced at call sites by their contract (spec_* functions / stub properties of NpySelf, ArrayModel, _Super).
+
+Defects this check refutes on the pinned tree (each with a native replay from bounded/c06.py, both repaired by a 2-line hunk):
+  F3   NpyArray.truncate cuts the file while the shorter header is only prepared  -> crash[killed after fs.truncate(): the file still loads]
+  F19  NpyArray.__setitem__ overwrites visible rows in place while the header of appended rows is only prepared -> crash[killed after
+       memmap store: file content = a logical content ...]  (new; repair: `if self._header_bytes_to_write: self.flush()` first)
 """
 MANIFEST = {
     'category': 'proof',
-    'text': 'NpyArray.append/truncate/clear/flush/close/__getstate__/_prepare_header_data/_write_header_data/_init_from_file_header/'
-            'init_from_array and the list-of-batches view of ArrayStore/NpyStore (__setitem__/__getitem__/__delitem__/__contains__/'
-            '__len__/_to_slice/clear) are verified for all row counts, row widths, item sizes, header lengths and batch sizes against a '
+    'text': 'NpyArray.append/truncate/clear/flush/close/__getstate__/memmap/__getitem__/__setitem__/_prepare_header_data/_write_header_data/'
+            '_init_from_file_header/init_from_array and the list-of-batches view of ArrayStore/NpyStore (__setitem__/__getitem__/__delitem__/'
+            '__contains__/__len__/_to_slice/clear) are verified for all row counts, row widths, item sizes, header lengths and batch sizes against a '
             'ghost model of the .npy file: representation invariant npy_ok before and after every method, functional postconditions from '
             'the property text, and after EVERY file operation the two crash obligations (file still loads; visible content is a logical '
             'content seen since the last completed flush). Obligations are generated from the current source and discharged by z3/cvc5. '
-            'Exhaustive operation sequences on the real NpyStore with numpy.load after every flush/close and a kill (child os._exit) '
-            'before/after every low-level file call are the labelled bounded stand-in and replay vehicle.',
-    'note': 'Trusted: pyvc engine; file-object model (each seek/write/truncate/flush/close is atomic and applied in program order, A-IO); '
-            'numpy.lib.format header writer/reader (length non-decreasing in the row count, round trip with space padding; sanity-tested every run); '
-            'np.memmap reads/writes the mapped rows. Kill points inside one write, torn pages, durability beyond the page cache and memmap '
-            'write-back are outside the model. Callers must pass batches of exactly batch_size rows and 0 <= length <= len to truncate.',
-    'technique': 'deductive: crash-Hoare-logic VCs from the real AST (pyvc proxies for the file object, ghost disk + history), z3/cvc5; '
-                 'bounded stand-in: all op sequences <= 4 (quick) / <= 5 (thorough) x kill at every file call of the last op',
+            'Exhaustive operation sequences on the real NpyStore with numpy.load after every flush/close/pickle and a kill (child os._exit) '
+            'around every low-level file call are the labelled bounded stand-in and replay vehicle.',
+    'note': 'Trusted: pyvc engine; file-object model (each seek/write/truncate/flush/close is atomic and applied in program order, buffered writes '
+            'reach the OS at the next seek/truncate/flush/close, A-IO); numpy.lib.format header writer/reader (length non-decreasing in the row '
+            'count, round trip with space padding; sanity-tested every run); np.memmap reads/writes the mapped rows immediately. Kill points inside '
+            'one write or one memmap store, torn pages and durability beyond the page cache are outside the model. Callers must pass batches of '
+            'exactly batch_size rows and 0 <= length <= len to truncate. __setstate__/__init__/delete and OutputPool save/open: bounded only.',
+    'technique': 'deductive: crash-Hoare-logic VCs from the real AST (pyvc proxies for the file object / memmap, ghost disk + history), z3/cvc5; '
+                 'bounded stand-in: all op sequences <= 4 (quick) / <= 5, one configuration <= 6 (thorough) x kill around every file call of the last op',
 }
 
 import z3
@@ -254,6 +265,7 @@ class Ghost:
         self.crash = crash
         # Hist at entry: the logical content and what the file shows (the crash invariant holds between operations)
         self.hist = [(self.n0, c0), (self.hdr0, c0)]
+        self.future = []             # spec: the logical content(s) the operation in progress leads to (its linearisation point is somewhere inside)
         self.ops = []
         self.write_row = None        # spec: row index at which the method's data write must land
         self.trunc_row = None        # spec: row count the method must cut the file to
@@ -270,7 +282,7 @@ class Ghost:
 
     def visible_in_hist(self):
         d = self.disk
-        return z3.Or([same(d.hdr_rows, d.content, n, c) for n, c in self.hist])
+        return z3.Or([same(d.hdr_rows, d.content, n, c) for n, c in self.hist + self.future])
 
     def crash_point(self, after):
         self.ops.append(after)
@@ -285,8 +297,11 @@ class FileSpec:
     """the binary file object NpyArray.fs (io.BufferedRandom) over the ghost disk.  ASSUMED (A-IO): every call is atomic and
     takes effect in program order; write at offset p replaces bytes [p, p+len); truncate() cuts/extends at the cursor."""
 
-    def __init__(self, g, closed, pos, name='array.npy'):
+    def __init__(self, g, closed, pos, name='array.npy', dirty=None):
         self.g, self._closed, self.pos, self.name = g, closed, pos, name
+        # ghost: bytes written through this object that may still sit in its user-space buffer.  seek/truncate/flush/close push the
+        # buffer to the OS (assumed, sanity-tested); a store through a np.memmap bypasses the buffer.
+        self.dirty = z3.BoolVal(False) if dirty is None else dirty
 
     @property
     def closed(self):
@@ -306,6 +321,7 @@ class FileSpec:
             raise OutOfSubset('seek whence %r' % (whence,))
         self._need_open()
         self.pos = T(pos)
+        self.dirty = z3.BoolVal(False)
         cur().oblige('call-pre[seek to a non-negative offset]', self.pos >= 0)
         self.g.crash_point('fs.seek()')
         return SIntB(self.pos)
@@ -317,6 +333,7 @@ class FileSpec:
     def write(self, b):
         self._need_open()
         vc, g, d = cur(), self.g, self.g.disk
+        self.dirty = z3.BoolVal(True)
         if isinstance(b, DataBytes):
             a = b.rows
             if g.write_row is None:
@@ -357,11 +374,13 @@ class FileSpec:
         r = g.trunc_row
         vc.oblige('call-pre[file is cut exactly after the remaining rows: offset = H + length*row_bytes]', self.pos == g.H + r * g.R)
         d.data_rows = r
+        self.dirty = z3.BoolVal(False)
         g.crash_point('fs.truncate()')
         return SIntB(self.pos)
 
     def _sync(self, what):
         g = self.g
+        self.dirty = z3.BoolVal(False)
         if g.flush_content is not None:
             g.hist = [g.flush_content()]
         g.crash_point(what)
@@ -467,12 +486,79 @@ class NpFormatSpec:
         return Shape(d.hdr_rows, Tail(d.hdr_tail)), False, DType(d.hdr_dtype)
 
 
+class MemmapSpec(Sym):
+    """np.memmap over the file object: `rows` rows of row shape `tail`, dtype `dt`, starting at byte `off`.  ASSUMED: item access
+    reads/writes exactly the addressed rows of the file, immediately (shared mapping), bypassing the file object's buffer."""
+
+    def __init__(self, g, fs, rows, tail, dt, off):
+        self.g, self.fs, self.rows, self.tail, self.dt, self.off, self.t = g, fs, rows, tail, dt, off, None
+
+    def maps_data(self, n):
+        g = self.g
+        return z3.And(self.rows == n, self.tail == g.tail, self.dt == g.dtype, self.off == g.H)
+
+    def _slice(self, sl, what):
+        if not isinstance(sl, slice) or sl.step is not None:
+            raise OutOfSubset('memmap index %r' % (sl,))
+        a, b = T(sl.start), T(sl.stop)
+        vc, g = cur(), self.g
+        vc.oblige('call-pre[memmap%s: the mapping covers rows [0, len) of the data region and they are in the file]' % what,
+                  z3.And(self.tail == g.tail, self.dt == g.dtype, self.off == g.H, self.rows <= g.disk.data_rows))
+        vc.oblige('call-pre[memmap%s: slice inside the mapping: 0 <= start <= stop <= len]' % what, z3.And(0 <= a, a <= b, b <= self.rows))
+        return a, b
+
+    def __getitem__(self, sl):
+        a, b = self._slice(sl, '[sl]')
+        c = self.g.disk.content
+        return Rows(b - a, lambda j: c(a + j), self.tail, self.dt)
+
+    def __setitem__(self, sl, value):
+        a, b = self._slice(sl, '[sl] = value')
+        if not isinstance(value, Rows):
+            raise OutOfSubset('memmap[sl] = %s' % type(value).__name__)
+        vc, g, d = cur(), self.g, self.g.disk
+        vc.oblige('call-pre[memmap[sl] = value: value has exactly the rows of the slice, same row shape and dtype]',
+                  z3.And(value.k == b - a, value.tail == self.tail, value.dt == self.dt))
+        vc.oblige('call-pre[memmap[sl] = value: no earlier file write is still buffered in the file object (the store would overtake it)]',
+                  z3.Not(self.fs.dirty))
+        old, val = d.content, value.val
+        d.content = lambda i: z3.If(z3.And(a <= i, i < b), val(i - a), old(i))
+        g.crash_point('memmap store')
+
+
+def np_memmap(g):
+    def memmap(fs, dtype=None, mode='r+', offset=0, shape=None, order='C'):
+        if not isinstance(fs, FileSpec) or not isinstance(dtype, DType) or not isinstance(shape, Shape) or mode != 'r+':
+            raise OutOfSubset('np.memmap arguments')
+        if order != 'C':
+            raise OutOfSubset('np.memmap order %r' % (order,))
+        fs._need_open()
+        vc = cur()
+        vc.oblige('call-pre[np.memmap: the mapped rows are present in the file (otherwise numpy extends the file)]',
+                  z3.And(T(offset) == g.H, shape.tail.t == g.tail, dtype.t == g.dtype, shape.rows >= 0, shape.rows <= g.disk.data_rows))
+        fs.dirty = z3.BoolVal(False)          # numpy seeks the file object to find its size: the buffer is pushed out
+        g.crash_point('np.memmap()')
+        return MemmapSpec(g, fs, shape.rows, shape.tail.t, dtype.t, T(offset))
+    return memmap
+
+
+def mm_state(x):
+    """_memmap -> (isnone term, MemmapSpec or None)"""
+    if x is None:
+        return z3.BoolVal(True), None
+    if isinstance(x, MemmapSpec):
+        return z3.BoolVal(False), x
+    if isinstance(x, SOpt) and isinstance(x.val, MemmapSpec):
+        return x.isnone, x.val
+    raise OutOfSubset('_memmap of type %s' % type(x).__name__)
+
+
 class _Empty:
     def __init__(self, dt):
         self.itemsize = SInt(ISZ(dt.t))
 
 
-def np_module():
+def np_module(g=None):
     from pyvc import npspec
 
     def prod(x):
@@ -484,7 +570,10 @@ def np_module():
         if isinstance(shape, Shape) and isinstance(dtype, DType):
             return _Empty(dtype)
         raise OutOfSubset('np.empty')
-    return npspec.module(extra={'prod': prod, 'empty': empty})
+    extra = {'prod': prod, 'empty': empty}
+    if g is not None:
+        extra['memmap'] = np_memmap(g)
+    return npspec.module(extra=extra)
 
 
 # ------------------------------------------------------------------------------------------------ the stub `self` of NpyArray
@@ -506,7 +595,7 @@ def pend_ok(o, g):
                                              hb.off == 0, hb.end == g.H))
 
 
-def npy_ok(o, g, strong=True):
+def npy_ok(o, g, strong=True, mm=True):
     """representation invariant of an initialised NpyArray over the ghost disk -> [(name, fact)]"""
     if not isinstance(o.shape, Shape):
         return [('npy_ok: shape is a tuple', z3.BoolVal(False))]
@@ -520,6 +609,11 @@ def npy_ok(o, g, strong=True):
            ('npy_ok: closed => nothing pending', z3.Implies(o.fs._closed, isnone))]
     if strong:
         out.append(('npy_ok: the disk header never shows more rows than the logical content', d.hdr_rows <= n))
+    mnone, mmap = mm_state(o._memmap)
+    if mm and mmap is not None:
+        out.append(('npy_ok: a cached memmap maps exactly the logical rows', z3.Implies(z3.Not(mnone), mmap.maps_data(n))))
+    if mm:
+        out.append(('npy_ok: file writes still buffered => no cached memmap', z3.Implies(o.fs.dirty, mnone)))
     return out
 
 
@@ -560,6 +654,26 @@ class NpySelf:
     def _vc_len(self):
         return SInt(self.shape.rows) if isinstance(self.shape, Shape) else 0
 
+    @property
+    def memmap(self):
+        """callee contract of the NpyArray.memmap property (proved by PropMemmap)"""
+        if 'memmap' not in self._stubs:
+            raise OutOfSubset('NpyArray.memmap is used but not declared as a callee of this contract')
+        vc, g = cur(), self._g
+        vc.libcall('stub:memmap', ())
+        for nm, f in npy_ok(self, g):
+            vc.oblige('call-pre[memmap: %s]' % nm, f)
+        if vc.branch(self.fs._closed):
+            raise program_exception(IndexError('NpyArray is not initialized'))
+        mnone, mmap = mm_state(self._memmap)
+        if mmap is None or vc.branch(mnone):
+            self.fs.dirty = z3.BoolVal(False)
+            self.fs.pos = vc.fresh_int('pos_after_memmap')
+            mmap = MemmapSpec(g, self.fs, self.shape.rows, g.tail, g.dtype, g.H)
+            g.ops.append('stub:memmap')
+        self._memmap = mmap
+        return mmap
+
     def __getattr__(self, name):
         if name.startswith('_vc') or name.startswith('__'):
             raise AttributeError(name)
@@ -575,8 +689,8 @@ def spec_prepare_header_data(o):
     """callee contract of NpyArray._prepare_header_data (proved by PrepareHeader)"""
     vc, g = cur(), o._g
     vc.libcall('stub:_prepare_header_data', ())
-    vc.oblige('call-pre[_prepare_header_data: fields fixed at initialisation]', npy_fields(o, g))
     n = o.shape.rows
+    vc.oblige('call-pre[_prepare_header_data: fields fixed at initialisation, rows >= 0]', z3.And(npy_fields(o, g), n >= 0))
     vc.assume(hlen_facts(n, g.tail, g.dtype))
     if vc.branch(HLEN(n, g.tail, g.dtype) > g.H):
         raise program_exception(OverflowError('header too short'))
@@ -592,7 +706,8 @@ def spec_write_header_data(o):
         for nm, f in write_header_pre(o, g, first=not g.crash):
             vc.oblige('call-pre[_write_header_data: %s]' % nm, f)
         d.hdr_rows, d.hdr_tail, d.hdr_dtype = hb.rows, hb.tail, hb.dtype
-        o.fs.pos = g.H
+        o.fs.pos = vc.fresh_int('pos_after_header')
+        o.fs.dirty = z3.BoolVal(True)
         g.ops.append('stub:_write_header_data')
     o._header_bytes_to_write = None
 
@@ -605,7 +720,7 @@ def write_header_pre(o, g, first=False):
             ('file open when a header is pending', z3.Implies(z3.Not(isnone), z3.Not(o.fs._closed))),
             ('the prepared header has length H and describes the logical rows', pend_ok(o, g)),
             ('the logical rows are on disk and are a content recorded since the last flush',
-             z3.And(n >= 0, n <= d.data_rows, n <= MAXROWS, z3.Or([same(n, d.content, m, c) for m, c in g.hist]))),
+             z3.And(n >= 0, n <= d.data_rows, n <= MAXROWS, z3.Or([same(n, d.content, m, c) for m, c in g.hist + g.future]))),
             (('the prefix with the length field H is on disk and a header is pending', z3.And(d.prefix_H == g.H, z3.Not(isnone))) if first else
              ('the file loads', g.loads())),
             ('no prepared header => the disk header shows the logical rows', z3.Implies(isnone, d.hdr_rows == n))]
@@ -626,6 +741,8 @@ def spec_truncate(o, length=0):
     p, h = vc.fresh('pending_after_truncate', z3.BoolSort()), vc.fresh_int('hdr_rows_after_truncate')
     o._header_bytes_to_write = SOpt(z3.Not(p), HeaderBytes(ln, g.tail, g.dtype, g.H, IV(0), g.H))
     d.hdr_rows, d.data_rows = h, ln
+    o.fs.dirty = z3.BoolVal(False)
+    o.fs.pos = vc.fresh_int('pos_after_truncate')
     vc.assume(z3.And(h >= 0, h <= ln, z3.Implies(z3.Not(p), h == ln)), g.visible_in_hist())
     o._memmap = None
     g.ops.append('stub:truncate')
@@ -642,7 +759,8 @@ def spec_flush(o):
     d.hdr_rows = o.shape.rows
     o._header_bytes_to_write = None
     g.hist = [(o.shape.rows, d.content)]
-    o.fs.pos = g.H
+    o.fs.pos = vc.fresh_int('pos_after_flush')
+    o.fs.dirty = z3.BoolVal(False)
     g.ops.append('stub:flush')
 
 
@@ -659,14 +777,17 @@ class NpyContract(Contract):
     strong = True
     target_name = None
 
+    mm_post = True
+
     def env(self, vc):
-        return {'np': np_module(), 'io': IOSpec, 'npformat': NpFormatSpec}
+        return {'np': np_module(self._g), 'io': IOSpec, 'npformat': NpFormatSpec}
 
     def args(self, vc, s):
         return (), {}
 
     def setup(self, vc):
         g = Ghost(vc, crash=self.crash)
+        self._g = g
         o = NpySelf(g, self.stubs)
         o.header_length = SIntB(g.H)
         o.itemsize = SInt(z3.Int('self_itemsize'))
@@ -676,8 +797,9 @@ class NpyContract(Contract):
         plen = z3.Int('pend_len')
         o._header_bytes_to_write = SOpt(z3.Not(g.pend0), HeaderBytes(z3.Int('pend_rows'), z3.Int('pend_tail'), z3.Int('pend_dtype'), plen, IV(0), plen))
         o.filename = 'array.npy'
-        o.fs = FileSpec(g, g.closed0, z3.Int('fs_pos'))
-        o._memmap = object()
+        o.fs = FileSpec(g, g.closed0, z3.Int('fs_pos'), dirty=z3.Bool('fs_buffered'))
+        g.mm_none0 = z3.Bool('memmap_none')
+        o._memmap = SOpt(g.mm_none0, MemmapSpec(g, o.fs, z3.Int('mm_rows'), z3.Int('mm_tail'), z3.Int('mm_dtype'), z3.Int('mm_off')))
         s = NS(g=g, o=o)
         a, kw = self.args(vc, s)
         return s, (o,) + tuple(a), kw
@@ -690,14 +812,14 @@ class NpyContract(Contract):
 
     def inv_post(self, s):
         g = s.g
-        return npy_ok(s.o, g) + [('crash invariant: the file shows a logical content recorded since the last completed flush', g.visible_in_hist())]
+        return npy_ok(s.o, g, mm=self.mm_post) + [('crash invariant: the file shows a logical content recorded since the last completed flush', g.visible_in_hist())]
 
     def witness(self, vc, model, ob):
         ev = lambda t: str(model.eval(t, model_completion=True))
         out = {}
         for nm in ('rows', 'disk_hdr_rows', 'disk_data_rows', 'H', 'length', 'k', 'pend_rows'):
             out[nm] = ev(z3.Int(nm))
-        for nm in ('pending', 'closed'):
+        for nm in ('pending', 'closed', 'memmap_none', 'fs_buffered'):
             out[nm] = ev(z3.Bool(nm))
         out['row_items'] = ev(Wf(z3.Int('tail')))
         out['itemsize'] = ev(ISZ(z3.Int('dtype')))
@@ -757,7 +879,7 @@ class Append(NpyContract):
         g = s.g
         new = lambda i: z3.If(i < g.n0, g.disk0(i), aval(i - g.n0))
         s.new = new
-        g.hist = g.hist + [(g.n0 + k, new)]
+        g.future = [(g.n0 + k, new)]
         return (Rows(k, lambda j: aval(j), at, ad),), {}
 
     def pre(self, s):
@@ -790,7 +912,7 @@ class Truncate(NpyContract):
         vc.fin_bounds.append(ln)
         g = s.g
         g.trunc_row = ln
-        g.hist = g.hist + [(ln, g.c0)]
+        g.future = [(ln, g.c0)]
         return (SInt(ln),), {}
 
     def pre(self, s):
@@ -911,6 +1033,7 @@ class PrepareHeader(NpyContract):
 class WriteHeader(NpyContract):
     """pre: the weaker mid-operation invariant (truncate calls it while the disk header still shows MORE rows than the logical content)"""
     target = 'elfi/store.py::NpyArray._write_header_data'
+    mm_post = False
 
     def __init__(self, first=False):
         self.first = first
@@ -931,6 +1054,92 @@ class WriteHeader(NpyContract):
                 ('shape unchanged', n == g.n0)] + self.inv_post(s)
 
 
+class PropMemmap(NpyContract):
+    target = 'elfi/store.py::NpyArray.memmap'
+
+    def raises(self, s):
+        return {'IndexError': s.g.closed0}
+
+    def iff_raises(self, s):
+        return [('normal return only if open', z3.Not(s.g.closed0))]
+
+    def ensures(self, s, result):
+        g = s.g
+        n, isnone, d = final(s)
+        rnone, r = mm_state(result)
+        if r is None:
+            return [('a memmap is returned', z3.BoolVal(False))]
+        return [('a memmap is returned', z3.Not(rnone)),
+                ('it maps exactly the logical rows of the data region (offset H, row shape, dtype, C order)', r.maps_data(g.n0)),
+                ('content and headers untouched', z3.And(n == g.n0, d.hdr_rows == g.hdr0, d.data_rows == g.data0,
+                                                         forall_range(0, g.data0, lambda i: d.content(i) == g.disk0(i), 'r')))] + self.inv_post(s)
+
+
+class NpyGetItem(NpyContract):
+    target = 'elfi/store.py::NpyArray.__getitem__'
+    stubs = ('memmap',)
+
+    def args(self, vc, s):
+        a, b = z3.Int('sl_start'), z3.Int('sl_stop')
+        s.a, s.b = a, b
+        vc.fin_bounds.extend([a, b])
+        return (slice(SInt(a), SInt(b)),), {}
+
+    def pre(self, s):
+        return [0 <= s.a, s.a <= s.b, s.b <= s.g.n0]
+
+    def raises(self, s):
+        return {'IndexError': s.g.closed0}
+
+    def iff_raises(self, s):
+        return [('normal return only if open', z3.Not(s.g.closed0))]
+
+    def ensures(self, s, result):
+        g = s.g
+        n, isnone, d = final(s)
+        if not isinstance(result, Rows):
+            return [('rows returned', z3.BoolVal(False))]
+        return [('array[a:b] has b-a rows', result.k == s.b - s.a),
+                ('array[a:b] are the logical rows a..b-1 in order', forall_range(0, s.b - s.a, lambda j: result.val(j) == g.disk0(s.a + j), 'j')),
+                ('content and headers untouched', z3.And(n == g.n0, d.hdr_rows == g.hdr0, d.data_rows == g.data0,
+                                                         forall_range(0, g.data0, lambda i: d.content(i) == g.disk0(i), 'r')))] + self.inv_post(s)
+
+
+class NpySetItem(NpyContract):
+    """in-place overwrite of rows [a, b) through the memmap"""
+    target = 'elfi/store.py::NpyArray.__setitem__'
+    stubs = ('memmap', 'flush', '_write_header_data')
+
+    def args(self, vc, s):
+        g = s.g
+        a, b, kv = z3.Int('sl_start'), z3.Int('sl_stop'), z3.Int('k')
+        vval = z3.Function('a_row', I, I)
+        s.a, s.b, s.kv, s.vval = a, b, kv, vval
+        s.vt, s.vd = z3.Int('a_tail'), z3.Int('a_dtype')
+        vc.fin_bounds.extend([a, b, kv])
+        new = lambda i: z3.If(z3.And(a <= i, i < b), vval(i - a), g.disk0(i))
+        s.new = new
+        g.future = [(g.n0, new)]
+        g.flush_content = lambda: (g.n0, g.c0)
+        return (slice(SInt(a), SInt(b)), Rows(kv, lambda j: vval(j), s.vt, s.vd)), {}
+
+    def pre(self, s):
+        g = s.g
+        return [0 <= s.a, s.a <= s.b, s.b <= g.n0, s.kv == s.b - s.a, s.vt == g.tail, s.vd == g.dtype]
+
+    def raises(self, s):
+        return {'IndexError': s.g.closed0}
+
+    def iff_raises(self, s):
+        return [('normal return only if open', z3.Not(s.g.closed0))]
+
+    def ensures(self, s, result):
+        g = s.g
+        n, isnone, d = final(s)
+        return [('row count unchanged', n == g.n0),
+                ('rows [a, b) now hold the value, every other row is unchanged', forall_range(0, g.n0, lambda i: d.content(i) == s.new(i), 'r'))] + self.inv_post(s)
+
+
 class InitFromFileHeader(NpyContract):
     """reopen: a freshly opened file object at offset 0 on a disk that loads; all other fields still unset"""
     target = 'elfi/store.py::NpyArray._init_from_file_header'
@@ -940,6 +1149,7 @@ class InitFromFileHeader(NpyContract):
         o, g = s.o, s.g
         o.header_length = o.itemsize = o.shape = o.dtype = o._header_bytes_to_write = None
         o.fs = FileSpec(g, z3.BoolVal(False), IV(0))
+        o._memmap = None
         g.hist = [(g.hdr0, g.c0)]         # nothing is known about the previous process: the file content IS the logical content
         return s, a, kw
 
@@ -968,6 +1178,7 @@ class InitFromArray(NpyContract):
         o, g = s.o, s.g
         o.header_length = o.itemsize = o.shape = o.dtype = o._header_bytes_to_write = None
         o.fs = FileSpec(g, z3.BoolVal(False), IV(0))
+        o._memmap = None
         g.disk = Disk(IV(-1), IV(-1), IV(-1), IV(-1), IV(0), g.c0)      # empty file: no header at all
         g.hist = [(IV(0), g.c0)]
         k = z3.Int('k')
@@ -1040,7 +1251,8 @@ class ArrayModel:
         a, b = self._bounds(sl, '[sl] = data')
         if not isinstance(data, Rows):
             raise OutOfSubset('array[sl] = %s' % type(data).__name__)
-        cur().oblige('call-pre[array[sl] = data: data has exactly the rows of the slice, same row shape]', z3.And(data.k == b - a, data.tail == self.tail))
+        cur().oblige('call-pre[array[sl] = data: array open, data has exactly the rows of the slice, same row shape and dtype]',
+                     z3.And(z3.Not(self._closed), data.k == b - a, data.tail == self.tail, data.dt == self.dt))
         old, val = self.content, data.val
         self.content = lambda i: z3.If(z3.And(a <= i, i < b), val(i - a), old(i))
         self.log.append('setitem')
@@ -1306,16 +1518,18 @@ class NDel(StoreContract):
 
 
 CONTRACTS = [PropSize(), PropLen(), PropClosed(), PropInitialized(),
-             Append(), Truncate(), Clear(), Flush(), Close(), GetState(), PrepareHeader(), WriteHeader(), WriteHeader(True), InitFromFileHeader(), InitFromArray(),
+             Append(), Truncate(), Clear(), Flush(), Close(), GetState(), PropMemmap(), NpyGetItem(), NpySetItem(), PrepareHeader(), WriteHeader(), WriteHeader(True), InitFromFileHeader(), InitFromArray(),
              AToSlice(), ALen(), AContains(), AGet(), ASet(), ADel(), AClear(True), AClear(False), NSet(), NDel()]
 
-TRUSTED_BASE = ['file object (io.BufferedRandom) model A-IO: seek/write/truncate/flush/close are atomic, applied in program order; a kill leaves the '
-                'ghost disk state of some operation boundary (buffered writes reach the OS in order)',
+TRUSTED_BASE = ['file object (io.BufferedRandom) model A-IO: seek/write/truncate/flush/close are atomic, applied in program order; written bytes may stay '
+                'in the user-space buffer until the next seek/truncate/flush/close (sanity-tested), so a kill leaves the ghost disk state of some '
+                'earlier operation boundary - every one of which carries the crash obligations',
                 'numpy.lib.format.write_array_header_2_0: total length > 12, non-decreasing in the row count up to 2**64 (sanity-tested each run)',
                 'numpy.lib.format.read_array_header_2_0 / numpy.load: round trip of (shape, C order, dtype) through a space-padded fixed-length header; '
                 'numpy.load needs header rows <= rows present and ignores trailing bytes (sanity-tested each run)',
                 'np.prod((r,)+tail) = r*prod(tail); ndarray.tobytes("C") = rows in order, prod(tail)*itemsize bytes each (sanity-tested)',
-                'np.memmap item access reads/writes exactly the addressed rows of the file',
+                'np.memmap(fileobj, offset, shape, dtype): item access reads/writes exactly the addressed rows of the file, immediately and bypassing the '
+                'file object buffer; creating it seeks the file object, which pushes its buffer out (sanity-tested)',
                 'pyvc engine: proxies, modular stubs, spec tables']
 ASSUMPTIONS = ['A-IO: kill points inside one write/truncate call, torn pages, durability beyond the OS page cache and memmap write-back are outside the model',
                'A-INT: integers are mathematical',
@@ -1324,8 +1538,8 @@ ASSUMPTIONS = ['A-IO: kill points inside one write/truncate call, torn pages, du
                'rows are non-empty (prod(shape[1:]) >= 1, itemsize >= 1); an array never holds more than 2**64 rows (MAX_SHAPE_LEN; then no OverflowError)',
                'the crash clause is checked from the first completed flush on; init_from_array (first append to an empty file) carries functional obligations only',
                'NpyStore: the file holds whole batches (len(array) is a multiple of batch_size, as after any sequence of the operations of the property)']
-NOT_PROVED = ['pickling and unpickling: __setstate__ (os.path lookups + __init__) and NpyArray.__init__/delete are covered by the bounded stand-in only; '
-              '__getstate__ (flush first) and _init_from_file_header (reopen yields the rows the header shows) are proved',
+NOT_PROVED = ['closing and reopening, or pickling and unpickling: NpyArray.__init__ / __setstate__ (os.path lookups, open()) and delete are covered by the '
+              'bounded stand-in only; close, __getstate__ (flush first) and _init_from_file_header (reopen yields the rows the header shows) are proved',
               'OutputPool/ArrayPool save/open (pickles stores next to the arrays): bounded stand-in only (NpyStore pickle round trip)']
 
 
